@@ -242,6 +242,17 @@ impl Prop for C12 {
             }
             seqs.push(s);
         }
+        // a sequence may start with a bare modifier key, e.g. (lsft a b) - the documented example
+        // of sequence-backtrack-modcancel (default yes): tapping lsft and then typing a b matches it
+        if r.chance(80) {
+            let m = r.pick(&["lsft", "lctl"]).to_string();
+            let n = r.range(1, 2) as usize;
+            let mut s0 = vec![Item::Plain(m)];
+            for _ in 0..n {
+                s0.push(Item::Plain(r.pick(&letters).clone()));
+            }
+            seqs.push(s0);
+        }
         if seqs.is_empty() {
             seqs.push(vec![Item::Plain(letters[0].clone())]);
         }
@@ -783,7 +794,9 @@ impl Prop for C12 {
                 }
                 _ => {
                     // visible-backspaced
-                    let want_bs = if expect_marker { typed_keys.len().saturating_sub(sg.noerase) } else { 0 };
+                    // (a bare modifier key is typed but is no character)
+                    let n_chars = typed_keys.iter().filter(|k| !matches!(k.as_str(), "LShift" | "LCtrl")).count();
+                    let want_bs = if expect_marker { n_chars.saturating_sub(sg.noerase) } else { 0 };
                     if bs != want_bs {
                         o.set_fail("C12:visible-backspaced-count", format!("{} characters typed, {} backspaces sent (expected {}); {}", typed_keys.len(), bs, want_bs, show()), ftags.clone());
                         return o;
